@@ -39,7 +39,7 @@ open Ioflo.ResolvePath (RawCtx RawFrame RawMain isIdentPub)
 
 inductive Sched | active | aux | moot
   deriving DecidableEq, Repr, Inhabited
-inductive Ctxt | enter | recur | exit | precur | renter | rexit
+inductive Ctxt | benter | enter | recur | exit | precur | renter | rexit
   deriving DecidableEq, Repr, Inhabited
 inductive Who | all | first | last
   deriving DecidableEq, Repr, Inhabited
@@ -74,6 +74,8 @@ inductive Item
   | act (ctx : Ctxt) (a : ActK)
   | go (far : String) (needs : List Need)
   | under (frame : String)                     -- `under frame`: makes it the primary under of the current frame
+  | cond (needs : List Need)                   -- `let [me] if [not] need [and …]`: entry conditions (the frame's beacts;
+                                               -- a negated need is an `Nact`, `neg = true`)
   deriving DecidableEq, Repr
 
 /-- an entry of `frame.auxes` before `resolveAuxLinks`: a framer name or the mapping `{tag: …}` of a clone -/
@@ -620,6 +622,7 @@ def resolveNeeds (s : St) (o : Fr) (fn : String) : List Need → Store → Excep
 def resolveItem (s : St) (o : Fr) (fn : String) (next : Option String) (st : Store) : Item → Except Err (Item × Store)
   | .aux a c v => .ok (.aux a c v, st)
   | .under n => .ok (.under n, st)
+  | .cond needs => (resolveNeeds s o fn needs st).map (fun (ns, st) => (.cond ns, st))
   | .act ctx a =>
     match a with
     | .record t => .ok (.act ctx (.record t), st)
@@ -654,6 +657,7 @@ def inList (c : Ctxt) : Item → Bool
   | .act c' _ => c' == c
   | .go _ _ => c == .precur
   | .under _ => false
+  | .cond _ => c == .benter
 
 /-- resolve the items of one act list, in place -/
 def resolveList (s : St) (o : Fr) (fn : String) (next : Option String) (c : Ctxt) :
@@ -668,8 +672,8 @@ def resolveList (s : St) (o : Fr) (fn : String) (next : Option String) (c : Ctxt
       | .error e => .error e
       | .ok (rest, st) => .ok (it :: rest, st)
 
-/-- the order in which `Frame.resolve` walks the act lists: enacts, reacts, preacts, exacts, rexacts, renacts -/
-def resolveOrder : List Ctxt := [.enter, .recur, .precur, .exit, .rexit, .renter]
+/-- the order in which `Frame.resolve` walks the act lists: beacts, enacts, reacts, preacts, exacts, rexacts, renacts -/
+def resolveOrder : List Ctxt := [.benter, .enter, .recur, .precur, .exit, .rexit, .renter]
 
 def resolveLists (s : St) (o : Fr) (fn : String) (next : Option String) :
     List Ctxt → List Item → Store → Except Err (List Item × Store)
@@ -770,11 +774,16 @@ def check (state : Option Int) (op : Op) (goal : Int) : Except Err Bool :=
     | _ => .error .typeError
 
 def ctxName : Ctxt → String
+  | .benter => "benter"
   | .enter => "enter" | .recur => "recur" | .exit => "exit" | .precur => "precur"
   | .renter => "renter" | .rexit => "rexit"
 
 def Frame.acts (f : Frame) (c : Ctxt) : List ActK :=
   f.items.filterMap (fun it => match it with | .act c' a => if c' = c then some a else none | _ => none)
+
+/-- `frame.beacts`: the needs of the `let` verbs in order -/
+def Frame.beacts (f : Frame) : List Need :=
+  f.items.flatMap (fun it => match it with | .cond ns => ns | _ => [])
 
 inductive Pre | act (a : ActK) | go (far : String) (needs : List Need)
 
@@ -949,13 +958,22 @@ def auxCheck (u : Nat) (fn : String) (exits : List String) (s : St) (a : Nat) (c
     else if ao.original && claimed.contains a then .ok (false, claimed)
     else lo.checkStart a (if ao.original then claimed ++ [a] else claimed) s
 
-/-- `Framer.checkEnter(enters, exits, claimed)` (no beacts are modelled) -/
+/-- `Frame.checkEnter(exits, claimed)`: the entry conditions (`for need in self.beacts: if not need(): return False`),
+then the auxiliaries -/
+def frameCheckEnter (u : Nat) (exits : List String) (s : St) (fn : String) (claimed : List Nat) :
+    Except Err (Bool × List Nat) :=
+  match s.frameOf u fn with
+  | .error e => .error e
+  | .ok f =>
+    match allM (needHolds u fn s) f.beacts with
+    | .error e => .error e
+    | .ok false => .ok (false, claimed)
+    | .ok true => allC (auxCheck lo u fn exits s) f.auxes claimed
+
+/-- `Framer.checkEnter(enters, exits, claimed)` -/
 def checkEnter (u : Nat) (enters exits : List String) (claimed : List Nat) (s : St) : Except Err (Bool × List Nat) :=
   if enters.isEmpty then .ok (false, claimed)
-  else allC (fun fn cl =>
-    match s.frameOf u fn with
-    | .error e => .error e
-    | .ok f => allC (auxCheck lo u fn exits s) f.auxes cl) enters claimed
+  else allC (frameCheckEnter lo u exits s) enters claimed
 
 /-- `Frame.enter()` -/
 def frameEnter (u : Nat) (fn : String) (s : St) : Except Err St :=
